@@ -256,6 +256,9 @@ def run_pairs(ctx, scs, name):
     for i, sc in enumerate(scs):
         code = choose_code(sc, ctx.rng, True)
         p1 = render_patch(sc, code)
+        if ctx.rng.random() < 0.3:
+            # a first change that cannot apply: it names an import that no file has (and the file lacks its code, too)
+            p1 = "@@\n@@\n import \"example.com/absent\"\n\n-nothing()\n+never()\n"
         sc2 = dict(pkg="", pimps=sc["pimps2"])
         p2 = render_patch(sc2, ("baz()", "qux()"))
         src = render_file(sc, code[2], ctx.rng).replace("func keep() {", "func g() {\n\tbaz()\n}\n\nfunc keep() {")
